@@ -602,6 +602,7 @@ func (h *History) runTemplate(t *rapid.T) {
 		}
 	case "fanupdown":
 		if coll {
+			h.numTemplate(t, ti, name) // grows and shrinks through the universe's own bulk keys (valid text)
 			return
 		}
 		stem := stemOf(pick(t, []int{0, 1, 12}, "fu_stem"), 5)
